@@ -37,6 +37,9 @@ let () =
   let blocks : (int, block) Hashtbl.t = Hashtbl.create 64 in
   let fam_tbl : (int * bool * int, int) Hashtbl.t = Hashtbl.create 512 in   (* (fam, internal, index) -> sh *)
   let fam_max : (int, int) Hashtbl.t = Hashtbl.create 4 in                  (* fam -> largest external counter seen *)
+  let sh_tbl : (int, int * bool * int) Hashtbl.t = Hashtbl.create 512 in     (* sh -> (fam, internal, index) *)
+  let fam_polluted : (int, unit) Hashtbl.t = Hashtbl.create 4 in            (* an index was issued although the rule refuses *)
+  let fam_reorged : (int, unit) Hashtbl.t = Hashtbl.create 4 in             (* a block paying an external address of the family was detached *)
   let wallets : (int, winfo) Hashtbl.t = Hashtbl.create 8 in
   let node : block list ref = ref [] in          (* genesis first *)
   let wchain : block list ref = ref [] in        (* processed chain of the running instance *)
@@ -90,6 +93,7 @@ let () =
     match f with
     | ["H"; n] ->
         hist := n; k := 0; Hashtbl.reset blocks; Hashtbl.reset fam_tbl; Hashtbl.reset wallets; Hashtbl.reset fam_max;
+        Hashtbl.reset sh_tbl; Hashtbl.reset fam_polluted; Hashtbl.reset fam_reorged;
         node := []; wchain := []; miss := false
     | ["K"; _; _] -> ()
     | ["G"; g] ->
@@ -97,7 +101,9 @@ let () =
         Hashtbl.replace blocks (ios g) gb; node := [gb]; wchain := [gb]
     | ["GAP"; g; m] -> gap := ios g; maxun := ios m
     | ["F"; _; _] -> ()
-    | ["D"; fam; br; idx; sh] -> Hashtbl.replace fam_tbl (ios fam, br = "1", ios idx) (ios sh)
+    | ["D"; fam; br; idx; sh] ->
+        Hashtbl.replace fam_tbl (ios fam, br = "1", ios idx) (ios sh);
+        Hashtbl.replace sh_tbl (ios sh) (ios fam, br = "1", ios idx)
     | ["W"; w; fam] ->
         Hashtbl.replace wallets (ios w) { fam = ios fam; st = wal_empty; live = true; restored = false; fresh_restore = false; int_hint = 0;
                                           issued = []; prepaid = Hashtbl.create 8; lost = Hashtbl.create 8 }
@@ -107,7 +113,12 @@ let () =
     | ["I"; pt; pv] -> cur_ins := (n_of_int (ios pt), n_of_int (ios pv)) :: !cur_ins
     | ["O"; sh; v; c; p] -> cur_outs := { o_sh = n_of_int (ios sh); o_val = zs v; o_class = cls_of (ios c) p } :: !cur_outs
     | ["N"; "attach"; bid] -> node := !node @ [Hashtbl.find blocks (ios bid)]
-    | ["N"; "detach"] -> node := List.rev (List.tl (List.rev !node))
+    | ["N"; "detach"] ->
+        let r = List.rev !node in
+        List.iter (fun o -> match Hashtbl.find_opt sh_tbl (int_of_n o.o_sh) with
+            | Some (fam, false, _) -> Hashtbl.replace fam_reorged fam ()
+            | _ -> ()) (block_outs (List.hd r));
+        node := List.rev (List.tl r)
     | ["P"; bid; impl] ->
         incr k;
         (* the announced block is on the node's chain (announcements are synchronous in this harness) *)
@@ -149,6 +160,7 @@ let () =
              if prepaid then Hashtbl.replace wi.prepaid (ios sh) ()
          | _ -> ());
         let internal = int_of_n wi.st.w_ks.ks_next_i > 0 in
+        if spec = "refuse" && String.length impl >= 2 && String.sub impl 0 2 = "ok" then Hashtbl.replace fam_polluted wi.fam ();
         Printf.printf "NA\t%s\t%d\t%s\t%s\t%s\t%s\t%s\t%s\tinternal=%d,prepaid=%d,n=%d\n" !hist !k w cls api impl_p model spec
           (if internal then 1 else 0) (if prepaid then 1 else 0) (int_of_n n)
     | ["RX"; w; fam; mode; he; hi; impl] ->
@@ -190,9 +202,10 @@ let () =
           done;
           let used_now = fun i -> pays_any !node (sf false i) in
           let inv = gap_inv_b (n_of_int !gap) used_now (n_of_int cur) in
-          Printf.printf "DISC\t%s\t%d\t%s\t%s\tgapinv=%d\tinternal=%d\tissued=%d\n" !hist !k w
+          Printf.printf "DISC\t%s\t%d\t%s\t%s\tgapinv=%d\tinternal=%d\tissued=%d\tpolluted=%d\treorged=%d\n" !hist !k w
             (String.concat "," (List.map string_of_int !missing)) (if inv then 1 else 0)
             (if wi.int_hint > 0 then 1 else 0) cur
+            (if Hashtbl.mem fam_polluted wi.fam then 1 else 0) (if Hashtbl.mem fam_reorged wi.fam then 1 else 0)
         end
     | ["BAL"; w; total] ->
         incr k;
